@@ -715,7 +715,23 @@ func TestZZReplay(t *testing.T) {
 				"github.com/MinterTeam/mhub2/"+overlayDirs[sub])
 			cmd.Dir = sd
 		}
-		cmd.Env = append(os.Environ(), "GOFLAGS=-mod=mod", "GOPROXY=off", "GOSUMDB=off", "GOTOOLCHAIN=local", "ZZ_REPLAY_LIST="+listFile, "ZZ_REPLAY_OUT="+outFile)
+		env := append(os.Environ(), "GOFLAGS=-mod=mod", "GOPROXY=off", "GOSUMDB=off", "GOTOOLCHAIN=local", "ZZ_REPLAY_LIST="+listFile, "ZZ_REPLAY_OUT="+outFile)
+		if sub == "connmain" {
+			// package main of the connector parses the command line and reads its configuration file in a package
+			// initialiser, before the testing flags exist: build the test binary and start it with -config only
+			bin := filepath.Join(tmp, "connmain.test")
+			build := exec.Command("go", "test", "-c", "-vet=off", "-overlay", ovFile, "-o", bin, "github.com/MinterTeam/mhub2/"+overlayDirs[sub])
+			build.Dir = cmd.Dir
+			build.Env = env
+			if bo, berr := build.CombinedOutput(); berr != nil {
+				return nil, fmt.Errorf("go test -c (native replay of package main) failed: %v\n%s", berr, tail(string(bo), 30))
+			}
+			toml := filepath.Join(tmp, "config.toml")
+			os.WriteFile(toml, []byte("[minter]\nmultisig_addr = \"Mx00000000000000000000000000000000000000aa\"\nchain = \"testnet\"\napi_addr = \"http://127.0.0.1:1\"\nprivate_key = \"\"\nstart_block = 0\nstart_event_nonce = 1\nstart_batch_nonce = 1\nstart_valset_nonce = 0\n\n[cosmos]\nmnemonic = \"\"\ngrpc_addr = \"127.0.0.1:1\"\nrpc_addr = \"http://127.0.0.1:1\"\n"), 0o644)
+			cmd = exec.Command(bin, "-config", toml)
+			cmd.Dir = tmp
+		}
+		cmd.Env = env
 		if os.Getenv("ZZ_DEBUG") != "" {
 			cmd.Args = append(cmd.Args[:2], append([]string{"-v"}, cmd.Args[2:]...)...)
 		}
